@@ -147,8 +147,178 @@ def _nested_quotes(ts):
     return out
 
 
-def templates_of(fn):
-    """All quote!/parse_quote! templates in a function, in source order (nested ones included)."""
+def _quote_tokens(e, fn, depth=0):
+    """token list of the quote! an expression evaluates to: `quote! {..}`, `v.clone()` / `&v` / `v` of such a binding"""
+    from . import types as TY
+
+    while A.kind(e) in ("Expr::Reference", "Expr::Paren", "Expr::Group"):
+        e = e["expr"]
+    k = A.kind(e)
+    if k == "Expr::Macro" and A.path_last(e["mac"]["path"]) == "quote":
+        return e["mac"]["tokens"]
+    if k == "Expr::MethodCall" and e["method"]["sym"] in ("clone", "to_token_stream") and not e["args"]:
+        return _quote_tokens(e["receiver"], fn, depth)
+    if k == "Expr::Path" and depth < 3:
+        nm = A.path_str(e)
+        sp = A.span_of(e)
+        if nm and "::" not in nm and sp:
+            b = TY.resolve(fn, nm, sp[0])
+            if b and b["kind"] == "let" and A.kind(b["pat"]) in ("Pat::Ident", "Pat::Type") and b.get("init") is not None:
+                return _quote_tokens(b["init"], fn, depth + 1)
+    return None
+
+
+def compose(fn, ir, depth=0, in_rep=False):
+    """Inline hoisted sub-templates: an interpolation `#v` whose binding is `let v = quote! { .. };` (possibly through
+    `.clone()` / another such alias) is replaced by that template's tokens, recursively. The spliced nodes keep their own
+    source spans, so type and binding look-ups on them still work."""
+    from . import types as TY
+
+    out = []
+    for x in ir:
+        t = x["t"]
+        if t == "var" and not in_rep and depth < 4:
+            b = TY.resolve(fn, x["s"], x["span"][0])
+            toks = None
+            if b and b["kind"] == "let" and A.kind(b["pat"]) in ("Pat::Ident", "Pat::Type") and b.get("init") is not None:
+                toks = _quote_tokens(b["init"], fn)
+            if toks is not None:
+                out.extend(compose(fn, to_ir(toks), depth + 1, in_rep))
+                continue
+            out.append(x)
+        elif t == "grp":
+            y = dict(x)
+            y["body"] = compose(fn, x["body"], depth, in_rep)
+            out.append(y)
+        elif t == "rep":
+            y = dict(x)
+            y["body"] = compose(fn, x["body"], depth, True)
+            out.append(y)
+        else:
+            out.append(x)
+    return out
+
+
+DELIMS = {"Paren": "(", "Brace": "{", "Bracket": "["}
+
+
+def _builder_ops(fn, var, stmts, start, depth=0):
+    """IR appended to the token stream variable `var` by the statements after index `start` of a block, or None when
+    something unknown touches it. Models `x.to_tokens(&mut var)`, `var.extend(quote!{..})`, `var.append_all(xs)`,
+    `var.append_separated(xs, token::Comma::default())`, `token::Paren::default().surround(&mut var, |inner| ..)`."""
+    out = []
+    for st in stmts[start:]:
+        if A.kind(st) != "Stmt::Expr":
+            if any(A.kind(x) == "Expr::Path" and A.path_str(x) == var for x, _ in A.walk(st)) and A.kind(st) == "Stmt::Local":
+                # read-only uses in later `let`s end the build
+                break
+            continue
+        e = st["0"]
+        txt = A.render(e)
+        if not any(A.kind(x) == "Expr::Path" and A.path_str(x) == var for x, _ in A.walk(e)):
+            continue
+        if A.kind(e) == "Expr::MethodCall":
+            m = e["method"]["sym"]
+            recv = A.render(e["receiver"])
+            if m == "to_tokens" and len(e["args"]) == 1 and A.render(e["args"][0]).replace(" ", "") in (f"&mut{var}", var):
+                r = e["receiver"]
+                toks = _quote_tokens(r, fn)
+                if toks is not None:
+                    out.extend(compose(fn, to_ir(toks)))
+                elif A.kind(r) == "Expr::Path" and "::" not in A.path_str(r):
+                    sp = A.span_of(r)
+                    out.append({"t": "var", "s": A.path_str(r), "span": list(sp) if sp else [0, 0]})
+                else:
+                    return None
+                continue
+            if recv == var and m == "extend" and len(e["args"]) == 1:
+                a = e["args"][0]
+                if A.kind(a) == "Expr::Array" and len(a["elems"]) == 1:
+                    a = a["elems"][0]
+                toks = _quote_tokens(a, fn)
+                if toks is None:
+                    return None
+                out.extend(compose(fn, to_ir(toks)))
+                continue
+            if recv == var and m in ("append_all", "append_separated") and e["args"]:
+                a = e["args"][0]
+                while A.kind(a) in ("Expr::Reference", "Expr::Paren"):
+                    a = a["expr"]
+                if A.kind(a) != "Expr::Path":
+                    return None
+                sp = A.span_of(a)
+                sep = None
+                if m == "append_separated":
+                    sepx = A.render(e["args"][1]) if len(e["args"]) > 1 else ""
+                    sep = "," if "Comma" in sepx else ";" if "Semi" in sepx else None
+                    if sep is None:
+                        return None
+                out.append({"t": "rep", "body": [{"t": "var", "s": A.path_str(a), "span": list(sp) if sp else [0, 0]}], "sep": sep, "span": list(sp) if sp else [0, 0]})
+                continue
+            if m == "surround" and len(e["args"]) == 2 and A.render(e["args"][0]).replace(" ", "") == f"&mut{var}" and A.kind(e["args"][1]) == "Expr::Closure" and depth < 3:
+                d = next((DELIMS[k] for k in DELIMS if k in recv), None)
+                cl = e["args"][1]
+                names = [n for p in cl["inputs"] for n in A.pat_idents(p)]
+                if d is None or len(names) != 1:
+                    return None
+                body = cl["body"]
+                bst = body["block"]["stmts"] if A.kind(body) == "Expr::Block" else [{"_": "Stmt::Expr", "0": body, "1": None}]
+                inner = _builder_ops(fn, names[0], bst, 0, depth + 1)
+                if inner is None:
+                    return None
+                sp = A.span_of(e)
+                out.append({"t": "grp", "d": d, "body": inner, "span": list(sp) if sp else [0, 0]})
+                continue
+        # a use that is not a recognised append: a plain read (tuple / return value) ends the build
+        if A.kind(e) in ("Expr::Tuple", "Expr::Path", "Expr::Call", "Expr::Return", "Expr::Macro"):
+            break
+        return None
+    return out
+
+
+def built_templates(fn):
+    """virtual templates: token streams assembled programmatically (`let mut ts = TokenStream::new(); x.to_tokens(&mut ts);
+    token::Paren::default().surround(&mut ts, |inner| inner.append_separated(&vars, Comma))`) read as the template
+    they are equivalent to"""
+    res = []
+    for blk, _ in A.find(fn.block, "Block"):
+        for i, st in enumerate(blk["stmts"]):
+            if A.kind(st) != "Stmt::Local" or not st.get("init"):
+                continue
+            pat = st["pat"]
+            if A.kind(pat) == "Pat::Type":
+                pat = pat["pat"]
+            if A.kind(pat) != "Pat::Ident" or not pat.get("mutability"):
+                continue
+            init = st["init"]["expr"]
+            ir0 = None
+            r = A.render(init)
+            if r in ("TokenStream::new()", "proc_macro2::TokenStream::new()"):
+                ir0 = []
+            else:
+                toks = _quote_tokens(init, fn)
+                if toks is not None:
+                    ir0 = compose(fn, to_ir(toks))
+                elif A.kind(init) == "Expr::MethodCall" and init["method"]["sym"] in ("to_token_stream", "into_token_stream") and A.kind(init["receiver"]) == "Expr::Path":
+                    sp = A.span_of(init["receiver"])
+                    ir0 = [{"t": "var", "s": A.path_str(init["receiver"]), "span": list(sp) if sp else [0, 0]}]
+            if ir0 is None:
+                continue
+            ops = _builder_ops(fn, pat["ident"]["sym"], blk["stmts"], i + 1)
+            if ops:
+                node = {"path": {"_": "Path", "segments": [{"ident": pat["ident"]}]}, "tokens": []}
+                res.append(Template(fn, "built", node, ir0 + ops, 1000 + len(res), False))
+    return res
+
+
+def templates_of(fn, composed=False):
+    """All quote!/parse_quote! templates in a function, in source order (nested ones included). With composed=True
+    hoisted sub-templates (`let x = quote!{..}; quote!{.. #x ..}`) are inlined into the templates using them."""
+    if composed:
+        res = templates_of(fn)
+        for t in res:
+            t.ir = compose(fn, t.ir)
+        return res + built_templates(fn)
     res = []
     sites = []
     for m, ps in A.macros(fn.block):
@@ -173,12 +343,12 @@ def templates_of(fn):
     return res
 
 
-def all_templates(files, rel_prefix="impl/src"):
+def all_templates(files, rel_prefix="impl/src", composed=False):
     out = []
     for fn in A.all_functions(files):
         if not fn.file.rel.startswith(rel_prefix):
             continue
-        out.extend(templates_of(fn))
+        out.extend(templates_of(fn, composed=composed))
     return out
 
 
